@@ -26,9 +26,9 @@ PROP = dict(
     tags=["gq1"],
     units=[
         U("fieldexh", ".", "^TestVerifC14_FieldExhaustive$", 0, 0, sq=4, sth=12, rapid=False, timeout={"quick": 600, "thorough": 1800}),
-        U("fieldrand", ".", "^TestVerifC14_FieldRandom$", 400, 24000, sq=4, sth=12),
+        U("fieldrand", ".", "^TestVerifC14_FieldRandom$", 400, 12000, sq=4, sth=12),
         U("pqlexh", "./server", "^TestVerifC14_PQLExhaustive$", 0, 0, sq=4, sth=12, rapid=False, timeout={"quick": 600, "thorough": 2400}),
-        U("pqlrand", "./server", "^TestVerifC14_PQLRandom$", 100, 6000, sq=4, sth=12),
+        U("pqlrand", "./server", "^TestVerifC14_PQLRandom$", 100, 3600, sq=4, sth=12),
         U("wit", ".", "^TestVerifWitness_(D16|D17|DQA[1-5])$", 0, 0, sq=1, sth=1, rapid=False),
         U("witapi", "./server", "^TestVerifWitness_DQA6$", 0, 0, sq=1, sth=1, rapid=False),
     ],
